@@ -565,15 +565,20 @@ func specEval(e *Expr, ev *Event) bool {
 	case "any":
 		// some field of the event (the id included; the timestamp is the event's time, not a field) holds a number
 		// that satisfies the comparison by value
-		if cmpRat(e.Op, big.NewRat(int64(ev.ID), 1), e.L.N.R) {
-			return true
+		// `*!=N` is the negation of `*=N` (no field holds N), like `*!=word` for text
+		op, neg := e.Op, false
+		if op == "!=" {
+			op, neg = "=", true
+		}
+		if cmpRat(op, big.NewRat(int64(ev.ID), 1), e.L.N.R) {
+			return !neg
 		}
 		for _, v := range ev.F {
-			if v.isNum() && cmpRat(e.Op, v.R, e.L.N.R) {
-				return true
+			if v.isNum() && cmpRat(op, v.R, e.L.N.R) {
+				return !neg
 			}
 		}
-		return false
+		return neg
 	case "and":
 		return specEval(e.A, ev) && specEval(e.B, ev)
 	case "or":
@@ -625,7 +630,10 @@ func (e *Expr) coq() string {
 	case "term":
 		return "EAtom (ATerm " + vhlib.CoqStr(lowerASCII(e.Word)) + " false)"
 	case "any":
-		return fmt.Sprintf("EAtom (AAny %s (%s))", opCoq[e.Op], e.L.coq())
+		if e.Op == "!=" {
+			return fmt.Sprintf("EAtom (AAny Eq (%s) true)", e.L.coq())
+		}
+		return fmt.Sprintf("EAtom (AAny %s (%s) false)", opCoq[e.Op], e.L.coq())
 	case "and":
 		return "EAnd (" + e.A.coq() + ") (" + e.B.coq() + ")"
 	case "or":
@@ -1558,13 +1566,11 @@ func termClass(ds *Dataset, w string, neg bool) string {
 }
 
 // all-column numeric comparison (`N`, `*=N`, `*<N`, ...): which stream.  The engine evaluates it as "some candidate
-// column of the record satisfies it"; under NOT (and for !=) deMorgansLaw only flips the operator, which is again
-// "some column ...", not the complement (known class negated_allcolumn_number).  A literal that is not a plain
-// int64 does not convert for the integer-typed range entries (every event has the integer id column).
+// column of the record satisfies it"; NOT keeps the operator and negates the record-level result, `*!=N` is the negation
+// of `*=N`.  (Before "fix: NOT on an all-column comparison with a number ..." deMorgansLaw flipped the operator, which
+// was again "some column ..."; the stream negated_allcolumn_number stays as a regression stream.)  A literal that is not
+// a plain int64 does not convert for the integer-typed range entries (every event has the integer id column).
 func anyClass(ds *Dataset, op string, l Lit, negated bool) string {
-	if negated || op == "!=" {
-		return "negated_allcolumn_number"
-	}
 	n := l.N
 	hasFloat := false
 	for _, ev := range ds.Events {
@@ -1583,7 +1589,7 @@ func anyClass(ds *Dataset, op string, l Lit, negated bool) string {
 	if n.Dot || !n.IsInt {
 		return "int_column_vs_decimal_literal"
 	}
-	if op == "=" {
+	if op == "=" || op == "!=" {
 		tol := big.NewRat(1, 10000)
 		for _, ev := range ds.Events {
 			for _, v := range ev.F {
@@ -1596,7 +1602,16 @@ func anyClass(ds *Dataset, op string, l Lit, negated bool) string {
 			}
 		}
 	}
+	if negated || op == "!=" {
+		return "negated_allcolumn_number"
+	}
 	return "main"
+}
+
+// repaired classes: their streams stay (a regression is a VIOLATION of the class) but they must not hide a still-known
+// class of another operand
+func repairedClass(c string) bool {
+	return c == "negated_term_not_in_block" || c == "where_noninteger_equals_zero" || c == "negated_allcolumn_number"
 }
 
 func modelable(stream, col string) bool {
@@ -1623,7 +1638,8 @@ func exprModelable(ds *Dataset, e *Expr, neg bool) bool {
 	case "term":
 		return modelable(termClass(ds, e.Word, neg), "")
 	case "any":
-		return anyClass(ds, e.Op, e.L, neg) == "main"
+		c := anyClass(ds, e.Op, e.L, neg)
+		return c == "main" || c == "negated_allcolumn_number"
 	case "not":
 		return exprModelable(ds, e.A, !neg)
 	default:
@@ -1644,8 +1660,7 @@ func exprClass(ds *Dataset, e *Expr, neg bool) string {
 	default:
 		a, b := exprClass(ds, e.A, neg), exprClass(ds, e.B, neg)
 		// a repaired class (kept as a regression stream) must not hide a still-known class of the other operand
-		repaired := a == "negated_term_not_in_block" || a == "where_noninteger_equals_zero"
-		if a == "main" || (repaired && b != "main") {
+		if a == "main" || (repairedClass(a) && b != "main" && !repairedClass(b)) {
 			return b
 		}
 		return a
@@ -1972,16 +1987,19 @@ func genPlanQueries(r *vhlib.Rng, ds *Dataset, thorough bool) []*QCase {
 		add(&QCase{Stream: exprClass(ds, e, false), E: e, Start: first, End: last, Model: true, Tag: "any/time_block"})
 		add(&QCase{Stream: exprClass(ds, e, false), E: e, Start: first + 2000, End: last + 3000, Model: true, Tag: "any/time_cut"})
 	}
-	// 5. known streams: decimal literals, != and NOT on an all-column comparison
+	// 5. decimal literals (known stream); != and NOT on an all-column comparison (repaired: regression stream, modelled)
 	for _, t := range []string{"404.0", "100.5", "2.5", "207.0"} {
 		l := numL(t)
 		add(&QCase{Stream: anyClass(ds, "=", l, false), E: anyE("=", l, true), Tag: "any/decimal"})
 		add(&QCase{Stream: anyClass(ds, "<", l, false), E: anyE("<", l, false), Tag: "any/decimal"})
 	}
-	for i := 0; i < 6; i++ {
+	for i := 0; i < 10; i++ {
 		a := anyEq()
-		add(&QCase{Stream: "negated_allcolumn_number", E: &Expr{Kind: "not", A: a}, Tag: "any/not"})
-		add(&QCase{Stream: "negated_allcolumn_number", E: anyE("!=", a.L, false), Tag: "any/ne"})
+		na := &Expr{Kind: "not", A: a}
+		add(&QCase{Stream: exprClass(ds, na, false), E: na, Model: true, Tag: "any/not"})
+		add(&QCase{Stream: anyClass(ds, "!=", a.L, false), E: anyE("!=", a.L, false), Model: true, Tag: "any/ne"})
+		ni := &Expr{Kind: "not", A: anyE(vhlib.Pick(r, ineq), numL(vhlib.Pick(r, lits)), false)}
+		add(&QCase{Stream: exprClass(ds, ni, false), E: ni, Model: true, Tag: "any/not_ineq"})
 	}
 	return qs
 }
@@ -2237,7 +2255,7 @@ func evalScenario(sc *scenario, sum *vhlib.Summary, dir string, imports string) 
 			repaired := ""
 			for k := 0; k < 4; k++ {
 				if st := streams[fmt.Sprintf("compound/%d/%d", i, k)]; st != "" && st != "main" {
-					if st == "negated_term_not_in_block" || st == "where_noninteger_equals_zero" {
+					if repairedClass(st) {
 						// a repaired class (regression stream) does not hide a still-known class of another member
 						repaired = st
 						continue
